@@ -121,6 +121,9 @@ def run(chk):
         where, out = getattr(chk, "proof_error", ("?", ""))
         chk.broken("proof obligation Properties/C06.v no longer checks (%s)" % where, out) \
             if not found_input else None
+    # DTLS 1.3 record layer: model Rec/Rec13.v, theorems Properties/C06rec13.v, correspondence legs
+    import rec13lib
+    rec13lib.run_c06(chk)
     chk.finish(
         level="proof",
         rule="unit: generated + exhaustive (len<=5 quick / 6 thorough over {0..3}, W in 1..3) arrival sequences through the replay "
